@@ -3,7 +3,8 @@
    process into a supervisor that forks a worker; the worker processes items sequentially and publishes
    its progress in shared memory.  When the worker dies, the supervisor prints one marker line for the
    item it died in ("\x01E <exit code>" / "\x01S <signal>" / "\x01T" for the per-item alarm) and forks a
-   new worker for the remaining items.  Nothing here touches the values under test. */
+   new worker for the remaining items; after $C17_DEATHS (default 100) dead workers it prints "\x01X" and stops
+   (the remaining items are reported as not run).  Nothing here touches the values under test. */
 #include <stdint.h>
 #include <stdio.h>
 #include <stdlib.h>
@@ -24,6 +25,9 @@ int64_t c17_naechster(int64_t n) {
 			_exit(99);
 		}
 		shared[0] = 0;
+		long deaths = 0, budget = 100;
+		const char *bs = getenv("C17_DEATHS");
+		if (bs && *bs) budget = atol(bs);
 		for (;;) {
 			fflush(stdout);
 			fflush(stderr);
@@ -52,6 +56,11 @@ int64_t c17_naechster(int64_t n) {
 				printf("\n\001E %d\n", WEXITSTATUS(st));
 			}
 			shared[0]++;
+			if (++deaths >= budget) { /* the remaining items are reported as not run */
+				printf("\001X\n");
+				fflush(stdout);
+				_exit(0);
+			}
 		}
 	}
 	if (started) {
